@@ -152,6 +152,28 @@ pub fn run() -> i32 {
             bad += 1;
         }
     }
+    // S10: a lock held across a rayon call by one external caller while another caller wants it: the
+    // second caller's futex wait must become a yield (otherwise it would block while holding the baton)
+    {
+        static M: std::sync::Mutex<u64> = std::sync::Mutex::new(0);
+        for (strategy, seed) in [(Strategy::Uniform, 1u64), (Strategy::Uniform, 2), (Strategy::StealEager, 3), (Strategy::Pct(2), 4), (Strategy::Sequential, 5)] {
+            *M.lock().unwrap() = 0;
+            let cfg = Config { workers: 3, strategy, seed, yield_on_block: true, thread_start: Some(crate::seams::mark_sim_thread), ..Config::default() };
+            let body = || {
+                let mut g = M.lock().unwrap();
+                let s: u64 = (0..64u64).into_par_iter().map(|x| x * 2).sum();
+                *g += s;
+                *g
+            };
+            let (r, rep) = sim::run_multi(cfg, vec![body, body, body]);
+            let mut got: Vec<u64> = r.into_iter().map(|x| x.unwrap()).collect();
+            got.sort();
+            println!("lock across a parallel call, 3 callers, {:?}: {:?} blocked_points={}", strategy, got, rep.stats.blocked_points);
+            if got != vec![4032, 8064, 12096] {
+                bad += 1;
+            }
+        }
+    }
     // S8: simulated threads run on simulator-placed stacks: the addresses of their locals are a
     // function of the stack seed alone (and lie in the fixed area); a panic crosses the switch
     let mut stack_log = vec![];
